@@ -413,9 +413,27 @@ fn keyboard(host: &mut Host, name: &str, op: &Value) -> Result<Option<Value>, St
                         let snap = kb.snapshot_state();
                         let text = serde_json::to_string(&snap).map_err(|e| format!("{e}"))?;
                         let back = serde_json::from_str(&text).map_err(|e| format!("{e}"))?;
-                        let mut fresh = KeyboardMatrix::new();
-                        fresh.load_snapshot_state(&back);
-                        *kb = fresh;
+                        if step.get(1).and_then(|x| x.as_str()) == Some("used") {
+                            // the same matrix lives on (other strobes, a few scans) and then takes the saved state
+                            // back in place; the memory cells a bundle restores with it are put back as well
+                            let cells: Vec<u8> = [0xF0u32, 0xF1, 0xF2, 0xFC]
+                                .iter()
+                                .map(|o| mem.read_internal_byte_silent(*o).unwrap_or(0))
+                                .collect();
+                            kb.handle_write(0xF0, u(step, 2)? as u8, mem);
+                            kb.handle_write(0xF1, u(step, 3)? as u8, mem);
+                            for _ in 0..u(step, 4)? {
+                                let _ = kb.scan_tick(mem, true);
+                            }
+                            kb.load_snapshot_state(&back);
+                            for (o, v) in [0xF0u32, 0xF1, 0xF2, 0xFC].iter().zip(cells.iter()) {
+                                mem.write_internal_byte(*o, *v);
+                            }
+                        } else {
+                            let mut fresh = KeyboardMatrix::new();
+                            fresh.load_snapshot_state(&back);
+                            *kb = fresh;
+                        }
                     }
                     "clrisr" => mem.write_internal_byte(0xFC, 0),
                     "kbirq" => kb_irq = b(step, 1)?,
